@@ -686,13 +686,6 @@ class VMF:
         self.entities.append(item)
         self.by_class[item['classname', ''].casefold()].add(item)
         self.by_target[item['targetname', ''].casefold() or None].add(item)
-        if 'nodeid' in item:
-            try:
-                node_id = int(item['nodeid'])
-            except (TypeError, ValueError):
-                pass
-            else:
-                item['nodeid'] = str(self.node_id.get_id(node_id))
 
     def remove_ent(self, item: 'Entity') -> None:
         """Remove an entity from the map.
@@ -712,13 +705,6 @@ class VMF:
 
         _remove_copyset(self.by_class, item['classname'].casefold(), item)
         _remove_copyset(self.by_target, item['targetname'].casefold() or None, item)
-        if 'nodeid' in item:
-            try:
-                node_id = int(item['nodeid'])
-            except (TypeError, ValueError):
-                pass
-            else:
-                self.node_id.discard(node_id)
 
     def add_brushes(self, brushes: Iterable['Solid']) -> None:
         """Add multiple brushes to the map."""
@@ -731,13 +717,6 @@ class VMF:
         for item in ents:
             self.by_class[item['classname'].casefold()].add(item)
             self.by_target[item['targetname', ''].casefold() or None].add(item)
-            if 'nodeid' in item:
-                try:
-                    node_id = int(item['nodeid'])
-                except (TypeError, ValueError):
-                    pass
-                else:
-                    item['nodeid'] = str(self.node_id.get_id(node_id))
 
     def create_ent(self, classname: str, **kargs: ValidKVs) -> 'Entity':
         """Convenience method to allow creating point entities.
@@ -3116,6 +3095,7 @@ class Entity(MutableMapping[str, str]):
         classname = 'worldspawn' if self is self.map.spawn else 'info_null'
         self['classname'] = classname
         del self['targetname']
+        del self['nodeid']  # Hand the nav node ID back.
         self._keys.clear()
         # The classname stays, by_class lists us under it.
         self._keys['classname'] = classname
@@ -3135,8 +3115,11 @@ class Entity(MutableMapping[str, str]):
     get_key = __contains__
 
     def __del__(self) -> None:
-        """Forget this entity's ID when the object is destroyed."""
+        """Forget this entity's ID and its nav node ID when the object is destroyed."""
         self.map.ent_id.discard(self.id)
+        # The node ID was allocated when the keyvalue was set (see __setitem__), and is
+        # owned by this entity for as long as it holds the keyvalue.
+        del self['nodeid']
 
     def get_bbox(self) -> tuple[Vec, Vec]:
         """Get two vectors representing the space this entity takes up."""
